@@ -716,21 +716,67 @@ func ruleEOFIdentity(c *core.Ctx) {
 						}
 						take := core.EdgeNone
 						if cur.v.Cond != nil && cur.v.Cond.Expr != nil && cur.v.Cond.Tag == nil {
-							if be, ok := ast.Unparen(cur.v.Cond.Expr).(*ast.BinaryExpr); ok && (be.Op == token.EQL || be.Op == token.NEQ) && core.ObjOf(info, be.X) == named {
-								var eq, known bool
-								if n := ioPkgObj(info, be.Y); n != "" {
-									known = val == "EOF" || val == "ErrUnexpectedEOF" || val == "malformed" || val == "nil"
-									eq = val == n
-								} else if core.IsNil(info, be.Y) {
-									known = val != "other"
-									eq = val == "nil"
-								}
-								if known {
-									if eq == (be.Op == token.EQL) {
-										take = core.EdgeTrue
-									} else {
-										take = core.EdgeFalse
+							var ev func(e ast.Expr) (bool, bool)
+							ev = func(e ast.Expr) (bool, bool) {
+								e = ast.Unparen(e)
+								switch x := e.(type) {
+								case *ast.UnaryExpr:
+									if x.Op == token.NOT {
+										v, k := ev(x.X)
+										return !v, k
 									}
+								case *ast.BinaryExpr:
+									switch x.Op {
+									case token.LAND:
+										a, ka := ev(x.X)
+										b, kb := ev(x.Y)
+										if (ka && !a) || (kb && !b) {
+											return false, true
+										}
+										return a && b, ka && kb
+									case token.LOR:
+										a, ka := ev(x.X)
+										b, kb := ev(x.Y)
+										if (ka && a) || (kb && b) {
+											return true, true
+										}
+										return a || b, ka && kb
+									case token.EQL, token.NEQ:
+										l, r := x.X, x.Y
+										if core.ObjOf(info, r) == named {
+											l, r = r, l
+										}
+										if core.ObjOf(info, l) != named {
+											return false, false
+										}
+										var eq, known bool
+										if n := ioPkgObj(info, r); n != "" {
+											known = val == "EOF" || val == "ErrUnexpectedEOF" || val == "malformed" || val == "nil"
+											eq = val == n
+										} else if core.IsNil(info, r) {
+											known = val != "other"
+											eq = val == "nil"
+										}
+										if !known {
+											return false, false
+										}
+										return eq == (x.Op == token.EQL), true
+									}
+								case *ast.CallExpr:
+									// errors.Is(err, io.EOF)
+									if k := core.CalleeKey(info, x); k == "errors.Is" && len(x.Args) == 2 && core.ObjOf(info, x.Args[0]) == named {
+										if n := ioPkgObj(info, x.Args[1]); n != "" && (val == "EOF" || val == "ErrUnexpectedEOF" || val == "nil") {
+											return val == n, true
+										}
+									}
+								}
+								return false, false
+							}
+							if v, known := ev(cur.v.Cond.Expr); known {
+								if v {
+									take = core.EdgeTrue
+								} else {
+									take = core.EdgeFalse
 								}
 							}
 						}
